@@ -82,6 +82,9 @@ P_Local.vos P_Local.vok P_Local.required_vos: P_Local.v Ast.vos Generated.vos Co
 P_Names.vo P_Names.glob P_Names.v.beautified P_Names.required_vo: P_Names.v Ast.vo Generated.vo Config.vo ToConfig.vo Model.vo HookSites.vo WfTree.vo P_OpVisit.vo P_Config.vo P_Hooks.vo P_Count.vo P_CountGlobal.vo
 P_Names.vio: P_Names.v Ast.vio Generated.vio Config.vio ToConfig.vio Model.vio HookSites.vio WfTree.vio P_OpVisit.vio P_Config.vio P_Hooks.vio P_Count.vio P_CountGlobal.vio
 P_Names.vos P_Names.vok P_Names.required_vos: P_Names.v Ast.vos Generated.vos Config.vos ToConfig.vos Model.vos HookSites.vos WfTree.vos P_OpVisit.vos P_Config.vos P_Hooks.vos P_Count.vos P_CountGlobal.vos
+P_NamesProgram.vo P_NamesProgram.glob P_NamesProgram.v.beautified P_NamesProgram.required_vo: P_NamesProgram.v Ast.vo Generated.vo Config.vo ToConfig.vo Model.vo HookSites.vo WfTree.vo P_OpVisit.vo P_Kinds.vo P_Telemetry.vo P_Config.vo P_Hooks.vo P_Program.vo P_Count.vo P_CountGlobal.vo P_CountProgram.vo P_Names.vo
+P_NamesProgram.vio: P_NamesProgram.v Ast.vio Generated.vio Config.vio ToConfig.vio Model.vio HookSites.vio WfTree.vio P_OpVisit.vio P_Kinds.vio P_Telemetry.vio P_Config.vio P_Hooks.vio P_Program.vio P_Count.vio P_CountGlobal.vio P_CountProgram.vio P_Names.vio
+P_NamesProgram.vos P_NamesProgram.vok P_NamesProgram.required_vos: P_NamesProgram.v Ast.vos Generated.vos Config.vos ToConfig.vos Model.vos HookSites.vos WfTree.vos P_OpVisit.vos P_Kinds.vos P_Telemetry.vos P_Config.vos P_Hooks.vos P_Program.vos P_Count.vos P_CountGlobal.vos P_CountProgram.vos P_Names.vos
 P_OpVisit.vo P_OpVisit.glob P_OpVisit.v.beautified P_OpVisit.required_vo: P_OpVisit.v Ast.vo Generated.vo Config.vo Model.vo
 P_OpVisit.vio: P_OpVisit.v Ast.vio Generated.vio Config.vio Model.vio
 P_OpVisit.vos P_OpVisit.vok P_OpVisit.required_vos: P_OpVisit.v Ast.vos Generated.vos Config.vos Model.vos
@@ -139,9 +142,9 @@ Properties/C03.vos Properties/C03.vok Properties/C03.required_vos: Properties/C0
 Properties/C04.vo Properties/C04.glob Properties/C04.v.beautified Properties/C04.required_vo: Properties/C04.v Ast.vo Generated.vo Config.vo Model.vo HookSites.vo Sites.vo P_Hooks.vo P_Local.vo
 Properties/C04.vio: Properties/C04.v Ast.vio Generated.vio Config.vio Model.vio HookSites.vio Sites.vio P_Hooks.vio P_Local.vio
 Properties/C04.vos Properties/C04.vok Properties/C04.required_vos: Properties/C04.v Ast.vos Generated.vos Config.vos Model.vos HookSites.vos Sites.vos P_Hooks.vos P_Local.vos
-Properties/C05.vo Properties/C05.glob Properties/C05.v.beautified Properties/C05.required_vo: Properties/C05.v Ast.vo Generated.vo Config.vo ToConfig.vo Model.vo P_Inert.vo P_Config.vo HookSites.vo WfTree.vo P_CountGlobal.vo P_Names.vo
-Properties/C05.vio: Properties/C05.v Ast.vio Generated.vio Config.vio ToConfig.vio Model.vio P_Inert.vio P_Config.vio HookSites.vio WfTree.vio P_CountGlobal.vio P_Names.vio
-Properties/C05.vos Properties/C05.vok Properties/C05.required_vos: Properties/C05.v Ast.vos Generated.vos Config.vos ToConfig.vos Model.vos P_Inert.vos P_Config.vos HookSites.vos WfTree.vos P_CountGlobal.vos P_Names.vos
+Properties/C05.vo Properties/C05.glob Properties/C05.v.beautified Properties/C05.required_vo: Properties/C05.v Ast.vo Generated.vo Config.vo ToConfig.vo Model.vo P_Inert.vo P_Config.vo HookSites.vo WfTree.vo P_CountGlobal.vo P_Names.vo P_NamesProgram.vo
+Properties/C05.vio: Properties/C05.v Ast.vio Generated.vio Config.vio ToConfig.vio Model.vio P_Inert.vio P_Config.vio HookSites.vio WfTree.vio P_CountGlobal.vio P_Names.vio P_NamesProgram.vio
+Properties/C05.vos Properties/C05.vok Properties/C05.required_vos: Properties/C05.v Ast.vos Generated.vos Config.vos ToConfig.vos Model.vos P_Inert.vos P_Config.vos HookSites.vos WfTree.vos P_CountGlobal.vos P_Names.vos P_NamesProgram.vos
 Properties/C06.vo Properties/C06.glob Properties/C06.v.beautified Properties/C06.required_vo: Properties/C06.v Ast.vo Generated.vo Config.vo Model.vo Directives.vo Hygiene.vo P_Local.vo P_Directives.vo
 Properties/C06.vio: Properties/C06.v Ast.vio Generated.vio Config.vio Model.vio Directives.vio Hygiene.vio P_Local.vio P_Directives.vio
 Properties/C06.vos Properties/C06.vok Properties/C06.required_vos: Properties/C06.v Ast.vos Generated.vos Config.vos Model.vos Directives.vos Hygiene.vos P_Local.vos P_Directives.vos
